@@ -73,7 +73,7 @@ TokD(d) == <<Tk("interface"), Tk(d.name)>> \o FlattenSeq([i \in 1..Len(d.members
 Strs(toks) == [i \in 1..Len(toks) |-> toks[i].s]
 
 (* --- descriptions ---------------------------------------------------------- *)
-IfaceNames == {"a.b", "org.example.more", "A.B1", "a.b-c.d", "xn--lgbbat1ad8j.example.algeria", "a.b2.c3"}
+IfaceNames == {"a.b", "org.example.more", "A.B1", "a.b-c.d", "xn--lgbbat1ad8j.example.algeria", "a.b2.c3", "a.b-c-d.e-f"}
 TaDecl == MType("Ta", Struct(<<F("a", Leaf("int"))>>))
 Desc(n, ms) == [name |-> n, members |-> ms]
 (* D1: every type (depth <= d) at every position: alias body, method input field, method output field, error field *)
@@ -93,7 +93,10 @@ D2 == LET Ms == {MType("T", Leaf("int")), MMethod("M", Struct(<<F("a", Leaf("int
                                   /\ (\E i \in DOMAIN q : q[i].name = "N") => (\E i \in DOMAIN q : q[i].name = "T")}}
 
 (* --- edits (C06) ----------------------------------------------------------- *)
-Alphabet == {"interface", "type", "method", "error", "(", ")", ",", ":", "->", "?", "[", "]", "string", "int", "a", "T", "x.y", "9", "-"}
+(* names with a non-ASCII letter; never well-formed.  The driver concretises U1 as U+00EA (UTF-8 C3 AA: both bytes *)
+(* are letters when read as Latin-1) and U4 as the single byte E9 (Latin-1, not valid UTF-8)                     *)
+NonAscii == {"aU1", "TU1", "aU4"}
+Alphabet == {"interface", "type", "method", "error", "(", ")", ",", ":", "->", "?", "[", "]", "string", "int", "a", "T", "x.y", "9", "-"} \cup NonAscii
 (* one edit, addressed by (kind, position, replacement); out-of-range addresses give s itself *)
 EditAt(s, kind, i, x) ==
   CASE kind = "del" /\ i \in 1..Len(s)       -> SubSeq(s, 1, i - 1) \o SubSeq(s, i + 1, Len(s))
